@@ -564,7 +564,7 @@ def rule_depth_default(ctx, fx, config):
 
 def run(ctx):
     for config in ctx.configs:
-        fx = ctx.facts(config)
+        fx = ctx.facts(config, raw=True)
         rule_panic(ctx, fx, config)
         rule_progress(ctx, fx, config)
         rule_recur(ctx, fx, config)
